@@ -348,20 +348,44 @@ def rnd_coef(rnd, small=False):
             return c
 
 
+ALLOW_DIRECT_NESTING = [False]   # f(f(x)) is a separate risk feature (C05 probe family)
+
+
+def safe_call(rnd, f, inner):
+    """call f(inner); a direct nesting f(f(..)) is avoided unless ALLOW_DIRECT_NESTING is set."""
+    if inner[0] == 'call' and inner[1] == f and not ALLOW_DIRECT_NESTING[0]:
+        inner = mul(num(rnd_coef(rnd)), inner)
+    return call(f, inner)
+
+
+def has_direct_nesting(e):
+    k = e[0]
+    if k in ('num', 'var', 'const'):
+        return False
+    if k == 'call':
+        if any(a[0] == 'call' and a[1] == e[1] for a in e[2:]):
+            return True
+        return any(has_direct_nesting(a) for a in e[2:])
+    if k == 'pow':
+        return has_direct_nesting(e[1])
+    return any(has_direct_nesting(a) for a in e[1:])
+
+
 def bounded(rnd, names, depth=2, funcs=('sin', 'tanh', 'sigmoid', 'cos')):
-    """Random smooth expression over `names` that is bounded or at most mildly polynomial.
-    Every name in `names` is not guaranteed to appear; use `linear_combo` for injective dependence."""
-    if depth <= 0 or not names or rnd.random() < 0.25:
-        if names and rnd.random() < 0.8:
-            return mul(num(rnd_coef(rnd)), var(rnd.choice(names)))
-        return num(rnd_coef(rnd))
+    """Random smooth expression over `names` that is bounded or at most mildly polynomial.  Every sub-expression
+    contains at least one variable (function calls on literals only are a separate risk feature)."""
+    if not names:
+        raise ValueError('bounded() needs at least one variable name')
+    if depth <= 0 or rnd.random() < 0.25:
+        return mul(num(rnd_coef(rnd)), var(rnd.choice(names)))
     r = rnd.random()
     if r < 0.35:
-        return call(rnd.choice(funcs), bounded(rnd, names, depth - 1, funcs))
+        return safe_call(rnd, rnd.choice(funcs), bounded(rnd, names, depth - 1, funcs))
     if r < 0.6:
         return add(bounded(rnd, names, depth - 1, funcs), bounded(rnd, names, depth - 1, funcs))
     if r < 0.75:
-        return sub(bounded(rnd, names, depth - 1, funcs), bounded(rnd, names, depth - 1, funcs))
+        return sub(bounded(rnd, names, depth - 1, funcs), num(rnd_coef(rnd)))
     if r < 0.9:
-        return mul(bounded(rnd, names, depth - 1, funcs), call(rnd.choice(funcs), bounded(rnd, names, depth - 1, funcs)))
+        return mul(bounded(rnd, names, depth - 1, funcs),
+                   safe_call(rnd, rnd.choice(funcs), bounded(rnd, names, depth - 1, funcs)))
     return div(bounded(rnd, names, depth - 1, funcs), add(num(2.0), ('pow', bounded(rnd, names, depth - 1, funcs), 2)))
